@@ -1,12 +1,14 @@
 """C05 — observer look angles are the true topocentric azimuth and elevation, never NaN."""
 import datetime as dt
 import math
+import warnings
 
 import numpy as np
 
 import geo
 import lib
 import orbits
+from props import c12
 
 ID = "C05"
 LEAN_TARGETS = ["PV.Props.C05"]
@@ -14,10 +16,13 @@ LEAN_TARGETS = ["PV.Props.C05"]
 EQUIV = {'PV.Equiv.Astro': ['gmst_eq', 'observer_position_eq'], 'PV.Equiv.Look': ['r_clip1', 'look_module_eq', 'look_method_eq']}
 RULE = ("(TLE, time, observer) triples: observers uniform over the globe, at the poles and the date line, at the EXACT "
         "sub-satellite point (lon/lat returned by get_lonlatalt, altitude 0 and just below the satellite), at the antipode, "
-        "with altitudes 0-9 km; module-level function also with geostationary altitudes; both functions with array-valued observers "
-        "(float64, float32, integer-typed whole-degree grids, 2-d); correspondence: "
+        "with altitudes -0.5..9 km (observers below the ellipsoid included); module-level function also with geostationary altitudes; "
+        "both functions with array-valued observers (float64, float32, integer-typed whole-degree grids, 2-d); both functions with the "
+        "time given in every representation of one instant (naive UTC, UTC-aware, offset-aware, datetime64[ns|us|ms|s]; process in "
+        "UTC and non-UTC local zones) judged at the true instant; correspondence: "
         "azimuth/elevation and the south/east/zenith components model vs both implementations at 1e-9; oracle: independent "
-        "WGS-84 east-north-up frame within 1e-4 deg (azimuth weighted by cos elevation), finiteness everywhere, method vs "
+        "WGS-84 east-north-up frame within 1e-4 deg (azimuth weighted by cos elevation) for the method and for the module-level "
+        "function (satellite at the lon/lat/alt it is given), finiteness everywhere, method vs "
         "module <= 5e-3 deg; distinct = (tle, time, observer)")
 ASSUMPTIONS = ["the 1e-4 deg and 5e-3 deg agreements are float facts, measured on the sampled geometries",
                "azimuth differences are weighted by cos(elevation) as the statement says"]
@@ -39,19 +44,21 @@ def observers_for(ctx, o, t):
     r = ctx.rng
     lon, lat, alt = [float(x) for x in o.get_lonlatalt(t)]
     obs = [
-        (r.uniform(-180, 180), r.uniform(-90, 90), r.uniform(0, 3)),
+        (r.uniform(-180, 180), r.uniform(-90, 90), r.uniform(-0.5, 3)),
         (r.uniform(-180, 180), r.uniform(-90, 90), 0.0),
         (lon, lat, 0.0),                                  # exactly under the satellite
-        (lon, lat, r.uniform(0, 9)),
+        (lon, lat, r.uniform(-0.5, 9)),
         (lon + r.uniform(-1e-6, 1e-6), lat + r.uniform(-1e-6, 1e-6), 0.0),
         (lon + r.uniform(-5, 5), max(-90.0, min(90.0, lat + r.uniform(-5, 5))), 0.0),
         (((lon + 360.0) % 360.0) - 180.0, -lat, 0.0),    # antipode
         (r.uniform(-180, 180), r.choice([90.0, -90.0]), 0.0),
         (r.choice([180.0, -180.0]), r.uniform(-90, 90), 0.0),
+        # below the ellipsoid (shores of the Dead Sea, polders, depressions), satellite at low to high elevation
+        (lon + r.uniform(-20, 20), max(-90.0, min(90.0, lat + r.uniform(-20, 20))), r.uniform(-0.5, 0.0)),
     ]
     # one station queried again at another altitude (same lon/lat, off the sub-satellite track): the altitude matters
     slon_, slat_ = lon + r.uniform(1, 8), max(-89.0, min(89.0, lat + r.uniform(-6, 6)))
-    obs += [(slon_, slat_, 0.0), (slon_, slat_, r.uniform(2, 9)), (slon_, slat_, 0.0)]
+    obs += [(slon_, slat_, 0.0), (slon_, slat_, r.uniform(2, 9)), (slon_, slat_, r.uniform(-0.5, 0.0)), (slon_, slat_, 0.0)]
     return obs, (lon, lat, alt)
 
 
@@ -163,33 +170,100 @@ def check_method_array(ctx, a, b, t, lons, lats, alts, kind, o=None):
     return len(ctx.violations) - n0
 
 
+def check_scalar(ctx, a, b, t, lon, lat, alt, o=None):
+    """One (TLE, time, observer): method and module-level function (given the sub-satellite lon/lat/alt) against the independent
+    east-north-up frame, and against each other.  Returns (violations added, method-vs-module difference or None)."""
+    from pyorbital import orbital
+    o = o or orbital.Orbital("x", line1=a, line2=b)
+    n0 = len(ctx.violations)
+    pk, _ = o.get_position(t, normalize=False)
+    th = geo.gmst_ref(t)
+    slon, slat, salt = [float(x) for x in o.get_lonlatalt(t)]
+    case = {"line1": a, "line2": b, "utc": t.isoformat(), "lon": lon, "lat": lat, "alt": alt}
+    ref_az, ref_el = geo.look_ref(pk, lon, lat, alt, th)
+    az, el = [float(x) for x in o.get_observer_look(t, lon, lat, alt)]
+    judge(ctx, dict(case, fn="method"), az, el, ref_az, ref_el, "Orbital.get_observer_look")
+    # module-level function, given the sub-satellite lon/lat/alt: the direction to the satellite at THAT lon/lat/alt
+    az2, el2 = [float(x) for x in orbital.get_observer_look(np.float64(slon), np.float64(slat), np.float64(salt), t,
+                                                             np.float64(lon), np.float64(lat), np.float64(alt))]
+    ref2 = geo.look_ref(geo.geodetic_to_eci(slon, slat, salt, th), lon, lat, alt, th)
+    d = None
+    judge(ctx, dict(case, fn="module", sat=[slon, slat, salt]), az2, el2, ref2[0], ref2[1], "orbital.get_observer_look")
+    if math.isfinite(az) and math.isfinite(el) and math.isfinite(az2) and math.isfinite(el2):
+        w = max(math.cos(math.radians(el)), 0.0)
+        d = max(abs((az2 - az + 180.0) % 360.0 - 180.0) * w, abs(el2 - el))
+        if d > 5e-3:
+            ctx.violation("method_vs_module", dict(case, fn="both"), [az2, el2], "method %r within 5e-3 deg" % [az, el],
+                          site="orbital.get_observer_look")
+    return len(ctx.violations) - n0, d
+
+
+TIME_REPRS = [("datetime", 0), ("aware", 0), ("aware", 330), ("aware", -480), ("aware", None), ("dt64us", 0), ("dt64ns", 0),
+              ("dt64ms", 0), ("dt64s", 0)]
+
+
+def check_time_repr(ctx, a, b, t, kind, off_min, tz, lon, lat, alt, o=None):
+    """The instant canon(kind, t) handed to both look functions in the representation `kind` (aware datetimes spelled with the UTC
+    offset off_min), with the process' local zone tz: both must report the direction at the TRUE instant."""
+    from pyorbital import orbital
+    o = o or orbital.Orbital("x", line1=a, line2=b)
+    n0 = len(ctx.violations)
+    true_t = c12.canon(kind, t)
+    pk, _ = o.get_position(true_t, normalize=False)
+    slon, slat, salt = [float(x) for x in o.get_lonlatalt(true_t)]
+    th = geo.gmst_ref(true_t)
+    val = c12.make_value(kind, t, off_min)
+    case = {"line1": a, "line2": b, "utc": t.isoformat(), "time_repr": kind, "offset_min": off_min, "tz": tz, "time_value": str(val),
+            "lon": lon, "lat": lat, "alt": alt, "fn": "time-repr"}
+    refs = {"Orbital.get_observer_look": geo.look_ref(pk, lon, lat, alt, th),
+            "orbital.get_observer_look": geo.look_ref(geo.geodetic_to_eci(slon, slat, salt, th), lon, lat, alt, th)}
+    for site in sorted(refs):
+        ctx.count("eval_oracle_time_repr")
+        try:
+            with c12.process_tz(tz), warnings.catch_warnings():
+                warnings.simplefilter("ignore")      # numpy warns that datetime64 has no time zone (it converts to UTC)
+                if site.startswith("Orbital"):
+                    az, el = o.get_observer_look(val, lon, lat, alt)
+                else:
+                    az, el = orbital.get_observer_look(np.float64(slon), np.float64(slat), np.float64(salt), val,
+                                                       np.float64(lon), np.float64(lat), np.float64(alt))
+            az, el = float(az), float(el)
+        except Exception as e:  # noqa
+            ctx.violation("time_repr_rejected", dict(case, site=site), "%s: %s" % (type(e).__name__, e),
+                          "azimuth %.6f elevation %.6f of the instant %s" % (refs[site] + (true_t.isoformat(),)), site=site)
+            continue
+        judge(ctx, dict(case, site=site), az, el, refs[site][0], refs[site][1], site)
+    return len(ctx.violations) - n0
+
+
 def oracle(ctx):
     from pyorbital import orbital
     n = ctx.size(25, 300)
     per = ctx.size(10, 60)
     worst = 0.0
     for (a, b, o) in orbits.make_orbitals(ctx, n):
-        for t in orbits.rand_times(ctx, o, per):
-            pk, _ = o.get_position(t, normalize=False)
-            th = geo.gmst_ref(t)
-            obs, (slon, slat, salt) = observers_for(ctx, o, t)
+        times = orbits.rand_times(ctx, o, per)
+        for t in times:
+            obs, _ = observers_for(ctx, o, t)
             for (lon, lat, alt) in obs:
-                ctx.count("eval_oracle")
-                case = {"line1": a, "line2": b, "utc": t.isoformat(), "lon": lon, "lat": lat, "alt": alt}
-                ref_az, ref_el = geo.look_ref(pk, lon, lat, alt, th)
-                az, el = [float(x) for x in o.get_observer_look(t, lon, lat, alt)]
-                judge(ctx, dict(case, fn="method"), az, el, ref_az, ref_el, "Orbital.get_observer_look")
-                # module-level function, given the sub-satellite lon/lat/alt
-                az2, el2 = [float(x) for x in orbital.get_observer_look(np.float64(slon), np.float64(slat), np.float64(salt), t,
-                                                                         np.float64(lon), np.float64(lat), np.float64(alt))]
-                if not (math.isfinite(az2) and math.isfinite(el2)):
-                    ctx.violation("nonfinite", dict(case, fn="module"), [az2, el2], "finite", site="orbital.get_observer_look")
-                elif math.isfinite(az) and math.isfinite(el):
-                    w = max(math.cos(math.radians(el)), 0.0)
-                    d = max(abs((az2 - az + 180.0) % 360.0 - 180.0) * w, abs(el2 - el))
+                ctx.count("eval_oracle", 2)
+                ctx.bump("observer_altitude", "below ellipsoid" if alt < 0 else "0" if alt == 0 else "above")
+                _, d = check_scalar(ctx, a, b, t, lon, lat, alt, o)
+                if d is not None:
                     worst = max(worst, d)
-                    if d > 5e-3:
-                        ctx.violation("method_vs_module", case, [az2, el2], "method %r within 5e-3 deg" % [az, el], site="orbital.get_observer_look")
+        # one instant written in every time representation (and with the process in several local zones)
+        for t in times[:ctx.size(2, 6)]:
+            r = ctx.rng
+            obs, _ = observers_for(ctx, o, t)
+            for kind, off in TIME_REPRS:
+                if off is None:
+                    off = r.choice([-720, -570, -210, 60, 345, 525, 840])
+                tz = r.choice([None, None] + c12.ZONES)
+                if not orbits.answers(o, c12.canon(kind, t)):
+                    continue
+                lon, lat, alt = r.choice(obs)
+                ctx.bump("time_repr", kind + ("%+d" % off if kind == "aware" else ""))
+                check_time_repr(ctx, a, b, t, kind, off, tz, lon, lat, alt, o)
     # module-level function at geostationary altitudes and with arrays (float64, float32, integer-typed grids, 2-d)
     for _ in range(ctx.size(300, 5000)):
         r = ctx.rng
@@ -201,7 +275,7 @@ def oracle(ctx):
             k = 4
         lons = [r.uniform(-180, 180) for _ in range(k)]
         lats = [r.uniform(-90, 90) for _ in range(k)]
-        alts = [r.uniform(0, 3) for _ in range(k)]
+        alts = [r.uniform(-0.5, 3) for _ in range(k)]
         if kind == "i64":
             lons, lats, alts = [float(round(x)) for x in lons], [float(round(x)) for x in lats], [float(round(x)) for x in alts]
         if kind == "f32":
@@ -219,7 +293,7 @@ def oracle(ctx):
             slon, slat, _ = [float(x) for x in o.get_lonlatalt(t)]
             lons = [slon + r.uniform(-30, 30) for _ in range(4)]
             lats = [max(-90.0, min(90.0, slat + r.uniform(-30, 30))) for _ in range(4)]
-            alts = [r.uniform(0, 3) for _ in range(4)]
+            alts = [r.uniform(-0.5, 3) for _ in range(4)]
             if kind == "i64":
                 lons, lats, alts = [float(round(x)) for x in lons], [float(round(x)) for x in lats], [float(round(x)) for x in alts]
             if kind == "f32":
@@ -249,12 +323,16 @@ def replay(ctx, case):
     if "line1" not in inp:
         print(inp)
         return 0
-    o = orbital.Orbital("x", line1=inp["line1"], line2=inp["line2"])
     t = dt.datetime.fromisoformat(inp["utc"])
-    pk, _ = o.get_position(t, normalize=False)
-    ref = geo.look_ref(pk, inp["lon"], inp["lat"], inp["alt"], geo.gmst_ref(t))
-    az, el = [float(x) for x in o.get_observer_look(t, inp["lon"], inp["lat"], inp["alt"])]
-    print("method", az, el, "reference", ref)
-    before = len(ctx.violations)
-    judge(ctx, inp, az, el, ref[0], ref[1], "Orbital.get_observer_look")
-    return 1 if len(ctx.violations) > before else 0
+    if inp.get("fn") == "time-repr":
+        n = check_time_repr(ctx, inp["line1"], inp["line2"], t, inp["time_repr"], inp["offset_min"], inp.get("tz"),
+                            inp["lon"], inp["lat"], inp["alt"])
+        for v in ctx.violations[-n:] if n else []:
+            print("time representation", inp["time_repr"], inp["offset_min"], "process tz", inp.get("tz"), v["site"], v["kind"],
+                  v["observed"], "required", v["required"])
+        return 1 if n else 0
+    n, d = check_scalar(ctx, inp["line1"], inp["line2"], t, inp["lon"], inp["lat"], inp["alt"])
+    for v in ctx.violations[-n:] if n else []:
+        print(v["site"], v["kind"], v["observed"], "required", v["required"])
+    print("violations", n, "method-vs-module difference", d)
+    return 1 if n else 0
